@@ -18,7 +18,7 @@ import (
 
 type Op struct {
 	Kind string `json:"kind"` // get | has | store
-	ID   int    `json:"id"`   // 0 | 1
+	ID   int    `json:"id"`   // 0 | 1 real digests; 2 = ID 0's first 8 bytes + other tail; 3 = other head + ID 1's last 24 bytes
 }
 
 type Case struct {
@@ -30,8 +30,27 @@ type Case struct {
 	Delays   []int  `json:"delays"`   // microsecond delays per upstream call (free mode)
 }
 
-var chunkData = [2][]byte{gen.RandBytes(100, 1), gen.RandBytes(120, 2)}
-var chunkIDs = [2]desync.ChunkID{desync.Digest.Sum(chunkData[0]), desync.Digest.Sum(chunkData[1])}
+const nIDs = 4
+
+var chunkData = [nIDs][]byte{gen.RandBytes(100, 1), gen.RandBytes(120, 2), gen.RandBytes(90, 3), gen.RandBytes(110, 4)}
+var chunkIDs = func() (ids [nIDs]desync.ChunkID) {
+	ids[0], ids[1] = desync.Digest.Sum(chunkData[0]), desync.Digest.Sum(chunkData[1])
+	// look-alike IDs (not digests of their data: their chunks are made without verification)
+	ids[2] = desync.Digest.Sum(chunkData[2])
+	copy(ids[2][:8], ids[0][:8])
+	ids[3] = desync.Digest.Sum(chunkData[3])
+	copy(ids[3][8:], ids[1][8:])
+	return
+}()
+
+// newChunk makes the chunk object for ID number idn.
+func newChunk(idn int) *desync.Chunk {
+	c, err := desync.NewChunkWithID(chunkIDs[idn], append([]byte(nil), chunkData[idn]...), idn >= 2)
+	if err != nil {
+		panic(err)
+	}
+	return c
+}
 
 type upCall struct {
 	kind   string
@@ -62,9 +81,14 @@ type upstream struct {
 }
 
 func (u *upstream) enter(kind string, id desync.ChunkID) *upCall {
-	idn := 0
-	if id == chunkIDs[1] {
-		idn = 1
+	idn := -1
+	for i := range chunkIDs {
+		if id == chunkIDs[i] {
+			idn = i
+		}
+	}
+	if idn < 0 {
+		panic("upstream asked for an ID nobody requested: " + id.String())
 	}
 	u.mu.Lock()
 	call := &upCall{kind: kind, id: idn, caller: u.callerOf()}
@@ -95,7 +119,7 @@ func (u *upstream) enter(kind string, id desync.ChunkID) *upCall {
 	case "get":
 		switch outcome {
 		case 0:
-			call.chunk, call.err = desync.NewChunkWithID(id, append([]byte(nil), chunkData[idn]...), false)
+			call.chunk = newChunk(idn)
 		case 1:
 			call.err = desync.ChunkMissing{ID: id}
 		default:
@@ -141,6 +165,7 @@ func genCase(t *rapid.T) Case {
 	c.Queue = rapid.SampledFrom([]string{"dedup", "wdedup", "wdedup"}).Draw(t, "queue")
 	k := rapid.IntRange(2, 5).Draw(t, "k")
 	oneID := rapid.Bool().Draw(t, "oneid")
+	lookAlike := rapid.IntRange(0, 3).Draw(t, "lookalike") == 0
 	for i := 0; i < k; i++ {
 		kinds := []string{"get", "get", "has"}
 		if c.Queue == "wdedup" {
@@ -149,6 +174,9 @@ func genCase(t *rapid.T) Case {
 		op := Op{Kind: rapid.SampledFrom(kinds).Draw(t, "kind")}
 		if !oneID && rapid.Bool().Draw(t, "id") {
 			op.ID = 1
+		}
+		if lookAlike && rapid.Bool().Draw(t, "alike") {
+			op.ID += 2 // 0 -> 2 (same first 8 bytes), 1 -> 3 (same last 24 bytes)
 		}
 		c.Ops = append(c.Ops, op)
 	}
@@ -226,8 +254,7 @@ func run(c Case) (o hx.Outcome) {
 	storeChunks := make([]*desync.Chunk, k)
 	for i, op := range c.Ops {
 		if op.Kind == "store" {
-			storeChunks[i] = desync.NewChunk(append([]byte(nil), chunkData[op.ID%2]...))
-			storeChunks[i].ID() // compute once, outside the schedule
+			storeChunks[i] = newChunk(op.ID % nIDs) // ID fixed here, outside the schedule
 		}
 	}
 	if st != nil {
@@ -253,7 +280,7 @@ func run(c Case) (o hx.Outcome) {
 				st.Park("start")
 			}
 			op := c.Ops[i]
-			id := chunkIDs[op.ID%2]
+			id := chunkIDs[op.ID%nIDs]
 			var r result
 			switch op.Kind {
 			case "get":
@@ -290,13 +317,13 @@ func run(c Case) (o hx.Outcome) {
 		for i, op := range c.Ops {
 			ok := false
 			for _, u := range up.calls {
-				if u.kind == op.Kind && u.id == op.ID%2 && sameResult(op.Kind, results[i], u, nil) {
+				if u.kind == op.Kind && u.id == op.ID%nIDs && sameResult(op.Kind, results[i], u, nil) {
 					ok = true
 				}
 			}
 			if !ok && op.Kind == "get" && c.Queue == "wdedup" {
 				for j, sop := range c.Ops {
-					if sop.Kind == "store" && sop.ID%2 == op.ID%2 && results[i].chunk == storeChunks[j] {
+					if sop.Kind == "store" && sop.ID%nIDs == op.ID%nIDs && results[i].chunk == storeChunks[j] {
 						ok = true
 					}
 				}
@@ -376,13 +403,13 @@ func run(c Case) (o hx.Outcome) {
 	badWithWaiter := false
 	for i, op := range c.Ops {
 		r := results[i]
-		idn := op.ID % 2
+		idn := op.ID % nIDs
 		// reads that overlap a de-duplicated write
 		if op.Kind == "get" && c.Queue == "wdedup" {
 			if t, ok := arrive[i]["wdedup.get.looked"]; ok {
 				var S = -1
 				for j, sop := range c.Ops {
-					if sop.Kind != "store" || sop.ID%2 != idn {
+					if sop.Kind != "store" || sop.ID%nIDs != idn {
 						continue
 					}
 					a, okA := arrive[j]["wdedup.store.loaded"]
@@ -445,6 +472,13 @@ func run(c Case) (o hx.Outcome) {
 		}
 	}
 	o.Class("mode:controlled", "queue:"+c.Queue)
+	for i, a := range c.Ops {
+		for _, b := range c.Ops[i+1:] {
+			if x, y := a.ID%nIDs, b.ID%nIDs; x != y && x%2 == y%2 && a.Kind == b.Kind {
+				o.Class("look-alike-ids:same-kind")
+			}
+		}
+	}
 	if waiters > 0 {
 		o.Class("had-waiter")
 	}
@@ -515,10 +549,10 @@ func fmtCalls(calls []*upCall, ret []int) string {
 var spec = &hx.Spec[Case]{
 	ID:    "C12",
 	Level: "exploration",
-	Rule: "cases = (DedupQueue or WriteDedupQueue; 2..5 callers each GetChunk/HasChunk/StoreChunk on one of 2 IDs; upstream outcome per call: data/missing/error; a schedule = which parked caller advances at each step, the harness owning every hook site and every upstream call) plus a free-running mode; " +
+	Rule: "cases = (DedupQueue or WriteDedupQueue; 2..5 callers each GetChunk/HasChunk/StoreChunk on one of 4 IDs (two digests, one ID sharing the first 8 bytes of the first, one sharing the last 24 bytes of the second); upstream outcome per call: data/missing/error; a schedule = which parked caller advances at each step, the harness owning every hook site and every upstream call) plus a free-running mode; " +
 		"small configurations (2 and 3 callers on one ID) have all schedules enumerated; non-trivial = a caller was served by another caller's upstream request and either joined between markDone and delete or received an error/missing result; distinct by (queue, ops, outcomes, release order)",
 	Assumptions: []string{"schedules are exhaustive only at hook-site granularity (races inside loadOrStore are covered by the free-running mode only)", "a de-duplicated request's lifetime ends when its owner returns"},
-	Required:    []string{"mode:controlled", "mode:free", "had-waiter", "joined-between-markdone-and-delete", "error-or-missing-with-waiter", "read-overlaps-write", "queue:dedup", "queue:wdedup"},
+	Required:    []string{"mode:controlled", "mode:free", "had-waiter", "joined-between-markdone-and-delete", "error-or-missing-with-waiter", "read-overlaps-write", "queue:dedup", "queue:wdedup", "look-alike-ids:same-kind"},
 	Gen:         genCase,
 	Run:         run,
 	Watchdog:    60 * time.Second,
@@ -540,6 +574,9 @@ func TestEnum(t *testing.T) {
 		{"dedup", []Op{g, g}}, {"dedup", []Op{h, h}}, {"dedup", []Op{g, h}},
 		{"wdedup", []Op{s, s}}, {"wdedup", []Op{s, g}}, {"wdedup", []Op{g, g}},
 		{"dedup", []Op{g, g, g}}, {"wdedup", []Op{s, s, s}},
+		// requests for IDs that differ only in their tail / only in their head must stay independent
+		{"dedup", []Op{g, {Kind: "get", ID: 2}}}, {"dedup", []Op{h, {Kind: "has", ID: 2}}}, {"wdedup", []Op{s, {Kind: "store", ID: 2}}},
+		{"dedup", []Op{{Kind: "get", ID: 1}, {Kind: "get", ID: 3}}}, {"wdedup", []Op{{Kind: "store", ID: 1}, {Kind: "get", ID: 3}}},
 	}
 	if hx.Thorough() {
 		// (mixed get/has configurations use two independent queues and have > 200 000 schedules: sampled only)
@@ -572,7 +609,7 @@ func TestEnum(t *testing.T) {
 		}
 	}
 	hx.AddNote("enumerated_schedules", total)
-	hx.Exhaustive("all hook-site schedules of the listed 2- and 3-caller configurations on one chunk ID")
+	hx.Exhaustive("all hook-site schedules of the listed 2- and 3-caller configurations on one chunk ID and on two look-alike IDs")
 }
 
 func TestProp(t *testing.T) { hx.Prop(t, spec) }
